@@ -1,11 +1,11 @@
 #!/usr/bin/env python3
 """Copy confirmed seeded changes from /tmp/seed_out into /verif/seeded/<id>/ (patch.diff, demo.rs, notes.md, meta.json)."""
 import json, os, re, shutil, sys
-SRC = '/tmp/seed_out'; SRC2 = '/tmp/seed_out2'; SRC3 = '/tmp/seed_out3'; SRC4 = '/tmp/seed_out4'; SRC5 = '/tmp/seed_out5'; DST = '/verif/seeded'
+SRC = '/tmp/seed_out'; SRC2 = '/tmp/seed_out2'; SRC3 = '/tmp/seed_out3'; SRC4 = '/tmp/seed_out4'; SRC5 = '/tmp/seed_out5'; SRC6 = '/tmp/seed_out6'; DST = '/verif/seeded'
 res = json.load(open('/verif/tools/seed_results.json'))
 for key, r in sorted(res.items()):
     p, k = key.split('-')
-    d = os.path.join(SRC5 if k == 'h' else SRC4 if k == 'g' else (SRC3 if k in 'ef' else (SRC2 if k in 'cd' else SRC)), p, k)
+    d = os.path.join(SRC6 if k == 'i' else SRC5 if k == 'h' else SRC4 if k == 'g' else (SRC3 if k in 'ef' else (SRC2 if k in 'cd' else SRC)), p, k)
     out = os.path.join(DST, key)
     if not os.path.isdir(d):
         d = out   # already saved: refresh meta.json only
